@@ -116,6 +116,8 @@ fn occur_check(id1: IntermediateId, t2: TypeNodeId) -> bool {
         ),
         Type::Union(types) => vec_cls(types),
         Type::Boxed(b) => cls(*b),
+        Type::Ref(r) => cls(*r),
+        Type::Code(c) => cls(*c),
         _ => false,
     }
 }
